@@ -236,6 +236,10 @@ class Engine:
                          for x in v.obj]
                 sv = V(tt, self.mk_seq(tt, [i.term for i in items]))
                 return sv if tt is t else V(t, t.some(sv.term))
+        if isinstance(v, VPy) and isinstance(v.obj, (tuple, list)) and isinstance(t, TSeq) and v.obj and isinstance(t.elem, (TRec, TUnint)):
+            # a literal list of module-level objects (e.g. [CSS_DEFINED]): element-wise, through the hook that names such constants
+            items = [self.coerce(x if isinstance(x, (V, VNone, VPy)) else VPy(x), t.elem, node) for x in v.obj]
+            return V(t, self.mk_seq(t, [i.term for i in items]))
         if isinstance(v, VPy):
             lifted = self.lift_py(v.obj, t, node)
             if lifted is not None:
